@@ -1,6 +1,6 @@
 (* C12 — link references resolve independently of position, case and spacing. *)
 From Coq Require Import ZArith List Bool Lia.
-From Verif Require Import PyStr Util UtilGen UtilProofs RefLinks RefLinksGen RefLinksProofs C18 Inline Block BlockProofs BlockRefs.
+From Verif Require Import PyStr Util UtilGen UtilProofs RefLinks RefLinksGen RefLinksProofs C18 Inline Block BlockProofs BlockRefs Doc Normalize NormalizeGen Entry.
 Import ListNotations.
 
 Theorem C12_tie_skeletons : reflinks_skeletons_ok = true.
@@ -79,9 +79,24 @@ Proof. intros C fuel rk m st rf st2 rf2 np k v H. apply rext_lookup_stable. exac
 Theorem C12_block_model_table_grows_by_first_definitions : forall C s toks rf, block_parse C s = Ok (toks, rf) -> rext [] rf.
 Proof. exact block_parse_refs. Qed.
 
+(* whole-document scope in the model of the complete conversion: the inline pass runs after the block pass has finished,
+   and every inline text of the document - wherever it stands - is parsed with one and the same reference table, the
+   final one, which consists of first definitions only *)
+Theorem C12_document_scope : forall px hw s ast, doc_parse_x px hw s = Ok ast ->
+  exists CB d toks rf,
+    block_cfg = Some CB /\ block_parse CB (run_ops parse_norm_ops s) = Ok (toks, rf) /\ rext [] rf /\
+    all_res (map (inline_pass (inline_cfg_or px hw (inline_refs rf) d)) toks) = Ok ast.
+Proof.
+  intros px hw s ast H. unfold doc_parse_x in H. destruct block_cfg as [CB|] eqn:EB; [|discriminate].
+  destruct (inline_cfg_x px hw []) as [d|]; [|discriminate]. unfold doc_parse, bind in H.
+  destruct (block_parse CB _) as [[toks rf]| |] eqn:Eb; try discriminate.
+  exists CB, d, toks, rf. split; [reflexivity|]. split; [exact Eb|]. split; [exact (block_parse_refs CB _ toks rf Eb)|exact H].
+Qed.
+
 Print Assumptions C12_first_definition_wins.
 Print Assumptions C12_case_insensitive.
 Print Assumptions C12_whitespace_insensitive.
 Print Assumptions C12_undefined_stays_literal.
 Print Assumptions C12_block_model_definitions_never_overwrite.
 Print Assumptions C12_block_model_first_definition_is_kept.
+Print Assumptions C12_document_scope.
